@@ -300,6 +300,34 @@ func checkAttrNameContinuation(p *Program, r *Report, rule string) {
 		"the attribute-name state consumes the rest of a name that started in an earlier text node without recording it in attr.name: the value is sanitized for the prefix only (src instead of srcdoc)")
 }
 
+// checkElementNameContinuation: the element-name analogue of checkAttrNameContinuation. The text scanner reads an
+// element name up to the end of a text node and enters the tag state; the text node after an action or comment is
+// written right behind it, so name characters at its start continue the element name for the browser. The tag-state
+// function treats them as the start of an attribute name; nothing appends them to element.name (or refuses them).
+func checkElementNameContinuation(p *Program, r *Report, rule string) {
+	tpk := p.Pkg("template")
+	stObj := tpk.Types.Scope().Lookup("state")
+	disp, _, err := stateDispatch(p)
+	if stObj == nil || err != nil {
+		r.Undec(rule, "template.transitionFunc", "", "anchor not found")
+		return
+	}
+	var fn *ssa.Function
+	for v, n := range ConstNames(tpk, stObj.Type()) {
+		if n == "stateTag" {
+			fn = disp[v]
+		}
+	}
+	if fn == nil {
+		r.Undec(rule, "template.transitionFunc[stateTag]", "", "anchor not found")
+		return
+	}
+	c := strings.TrimPrefix(fnName(fn), pkgTemplate+".") + "#element-name-continuation"
+	n := len(storesToField(fn, pkgTemplate, "element", "name"))
+	r.Check(n > 0, rule, c, p.Pos(fn.Pos()), "the continuation of an element name is appended to element.name",
+		"the tag state reads the rest of an element name that started in an earlier text node as an attribute name: the element's body is sanitized for the prefix only (<s{{/**/}}cript>{{.X}}</script> is analysed as an <s> element and emits a script)")
+}
+
 // checkOpaqueBodyNotUndone: at the end of a start tag the element name alone decides whether the text that
 // follows is an opaque (raw-text / RCDATA) body. Once the tag function has chosen the opaque-body state, nothing
 // on the way to its return may take the element away again or reset the state unless the name is known not to be
